@@ -14,9 +14,18 @@ VERIF = os.path.dirname(os.path.dirname(os.path.abspath(__file__)))
 WT = '/tmp/wt-verify'
 
 
+SCRATCH = '/tmp/verify-seed-tmp'     # what the suite and the demos leave behind
+
+
 def sh(cmd, **kw):
-    return subprocess.run(cmd, shell=True, stdout=subprocess.PIPE,
-                          stderr=subprocess.STDOUT, text=True, **kw)
+    if 'env' not in kw:
+        os.makedirs(SCRATCH, exist_ok=True)
+        kw['env'] = dict(os.environ, TMPDIR=SCRATCH)
+    try:
+        return subprocess.run(cmd, shell=True, stdout=subprocess.PIPE,
+                              stderr=subprocess.STDOUT, text=True, **kw)
+    finally:
+        shutil.rmtree(SCRATCH, ignore_errors=True)
 
 
 def main():
